@@ -157,6 +157,18 @@ CLAIMED['C15'] = (
     'covers the code ranges holding SCSV, GREASE and common values plus a seed-rotated range (thorough: whole space); '
     'extension bodies of types the library parses in detail come from the seed corpus (concrete)', '5 C15')
 
+CLAIMED['C13'] = (
+    '(a) for every seeded class an object parsed from an accepted vector with one symbolic byte: every observer the '
+    'class has (compose, as_markdown, ja3, hassh, hassh_server, key_tag, _asdict) is run, then all again in reverse '
+    'order - results repeat and the object stays field-by-field equal to an independently parsed twin; (b) parse from a '
+    'bytearray with a symbolic byte, then overwrite a symbolic index of the buffer with a symbolic value and clear it: '
+    'the object and its compose() are unchanged. Natively enumerated: as_json / fingerprints on the seed objects, the '
+    'client hello at its cipher-suite ceiling with both SCSV flags, and shared container state between instances '
+    'built from defaults of every seeded attrs class',
+    'single-byte windows (quick: one rotated position per class, text classes over 22 boundary characters); sharing '
+    'of scalar component objects (re-assigning .value of a shared default component) is not looked at, only shared '
+    'containers; (c) and the ceiling case are fork-exhaustive / native, with nothing for the solver to decide', '5 C13')
+
 NOT_APPLICABLE = {
     'C19': 'asymptotic claim (work linear in input size for n, 2n, 4n, ...): a bounded symbolic execution fixes the '
            'input size, so a pass says nothing about growth; the total-work bound needs an amortised argument over '
